@@ -107,6 +107,20 @@ class GCPMapping:
             multipoint(self._wld.tolist(), self.crs),
         )
 
+    def __eq__(self, other: object) -> bool:
+        if self is other:
+            return True
+        if not isinstance(other, GCPMapping):
+            return False
+        return (
+            self._crs == other._crs
+            and np.array_equal(self._pix, other._pix)
+            and np.array_equal(self._wld, other._wld)
+        )
+
+    def __hash__(self) -> int:
+        return hash((self._crs, self._pix.tobytes(), self._wld.tobytes()))
+
     def __dask_tokenize__(self):
         return (
             "odc.geo._gcp.GCPMapping",
@@ -173,7 +187,7 @@ class GCPGeoBox(GeoBoxBase):
         return (wx, wy)
 
     def __hash__(self):
-        return hash((*self._shape, self._affine, self._crs, id(self._mapping)))
+        return hash((*self._shape, self._affine, self._crs, self._mapping))
 
     @property
     def linear(self) -> bool:
@@ -292,7 +306,7 @@ class GCPGeoBox(GeoBoxBase):
 
         return (
             self._shape == __o.shape
-            and self._mapping is __o._mapping
+            and self._mapping == __o._mapping
             and self._affine == __o._affine
         )
 
